@@ -247,6 +247,9 @@ def parse_cbmc(text):
 # unwinding assertion, so a value that really nests deeper makes the harness inconclusive, never a silent pass.
 REC_PATTERNS = [
     (re.compile(r"(ValueKind|mech_core::Value\b|value::Value\b).*"), re.compile(r"hash|clone|drop_glue|drop_in_place|::eq|::ne|to_vec|fmt"), 3),
+    # C20: the include expander recurses once per include edge; three files => a chain of at most 3 distinct files, the 4th call
+    # detects the cycle.  5 leaves one spare level (unwinding assertion if exceeded)
+    (re.compile(r"expand_mechdown_includes_recursive|expand_mechdown_include_tokens|verif_c20::oracle"), re.compile(r"."), 5),
 ]
 
 
